@@ -444,11 +444,16 @@ def _version_sniff(ctx):
         ctx.ob('C03.D4', 'VERSION_RE accepts every header ver:"<version>"', True, FP)
     try:
         pg = m.func('zincparser', 'parse_grid')
-        t = norm(pg)
-        if 'version = Version(ver_match.group(1))' in t and 'hs_grid[version].parseString(grid_data, parseAll=parseAll)' in t:
-            ctx.ob('C03.D4', 'the grammar is selected by the sniffed version (NearestMatch -> Version.nearest)', True,
-                   '%s:%d' % (FP, pg.lineno))
-        else:
-            ctx.error('C03.D4', 'parse_grid: version selection not recognised')
+        from .. import match
+        sg = match.Script(ctx, 'C03.D4', [pg], FP, '%s::parse_grid' % FP)
+        sg.seed('data', pg.args.args[0].arg)
+        sg.need(['_R_vm = VERSION_RE.match(_R_data)'], 'the version header is sniffed from the start of the text',
+                'the version is taken from somewhere else than the header')
+        sg.need(['_R_version = Version(_R_vm.group(1))'], 'the sniffed text becomes the version',
+                'another group of the header than the version text selects the grammar')
+        sg.need(['return hs_grid[_R_version].parseString(_R_data, parseAll=_R_pa)[0]',
+                 'return hs_grid[_R_version].parse_string(_R_data, parse_all=_R_pa)[0]'],
+                'the grammar is selected by the sniffed version (NearestMatch -> Version.nearest)',
+                'the document is parsed with the grammar of another version')
     except AnalysisError as e:
         ctx.error('C03.D4', str(e))
